@@ -126,7 +126,36 @@ class _NonrecursivePickler(dill.Pickler):
             raise NotImplementedError(  # pragma: no cover
                 "Edgegraph _NonrecursivePickler does not support save_persistent_id option!"
             )
+        if self.eager:
+            # inside a class that is being written out by value: see _save_now
+            self.realsave(obj)
+            return
         self.lazywrites.append(_LazySave(obj))
+
+    #: Non-zero while a class is being saved the ordinary, recursive way.
+    eager = 0
+
+    def _save_now(self, obj):
+        """
+        Save an object that has come to the head of the queue.
+
+        A class that cannot be found by name (defined in ``__main__`` or inside
+        a function) is written out piece by piece by dill, which ties the knots
+        -- a method that refers to its own class through ``super()`` -- with
+        bookkeeping that only works while the pieces are saved *during* the
+        save of the class.  Deferring them makes the class be saved again for
+        every reference to itself, forever.  Such a class is therefore saved
+        the recursive way, methods and all; nothing is pending when it starts,
+        so its memo entries are made in stream order.
+        """
+        if isinstance(obj, type):
+            self.eager += 1
+            try:
+                self.realsave(obj)
+            finally:
+                self.eager -= 1
+        else:
+            self.realsave(obj)
 
     #: Alias to the true :py:meth:`dill.Pickler.save`.
     realsave = dill.Pickler.save
@@ -145,14 +174,14 @@ class _NonrecursivePickler(dill.Pickler):
         """Write a pickled representation of obj to the open file."""
         if self.proto >= 2:
             self.write(pickle.PROTO + chr(self.proto).encode("ascii"))
-        self.realsave(obj)
+        self._save_now(obj)
         while self.lazywrites:
             lws = self.lazywrites
             self.lazywrites = []
             while lws:
                 lw = lws.pop(0)
                 if isinstance(lw, _LazySave):
-                    self.realsave(lw.obj)
+                    self._save_now(lw.obj)
                     if self.lazywrites:
                         self.lazywrites.extend(lws)
                         break
